@@ -64,6 +64,29 @@ def _tall(job):
     return cnt, bad[:50]
 
 
+def _column(job):
+    """Single-unit column far beyond every other table: O(n) to build, and its closed-form cost
+    n(n+1)/2-1 is the first table value to leave a 32-bit range (at n = 65536)."""
+    N = job
+    from .. import lib
+    mx = lib.cs_mixed
+    bad = []
+    try:
+        tab = lib.quiet(mx.mixed_steps_tabulation, N, 1)
+    except Exception as e:
+        return 0, [(N, 1, "mixed_steps_tabulation(%d,1) raised %s: %s" % (N, type(e).__name__, str(e)[:80]), "n/a")]
+    cnt = 0
+    for n in sorted({2, 3, 255, 256, 257, 46340, 46341, 65535, 65536, 65537, N - 1, N}):
+        if n > N:
+            continue
+        t = tuple(int(x) for x in tab[n, 1])
+        m = tuple(int(x) for x in lib.quiet(mx.mixed_step_memoization, n, 1))
+        cnt += 1
+        if t != m:
+            bad.append((n, 1, t, m))
+    return cnt, bad
+
+
 def _stream_pair(job):
     n, s, stg = job
     from .. import monitor
@@ -117,6 +140,7 @@ def run(prop, args):
     parts = R.pmap(_table, [(N, lo, min(lo + 3, N)) for lo in range(1, N + 1, 4)], chunksize=1)
     tall_cnt, tall_bad = tall_async.get(timeout=7200)
     parts.append((tall_cnt, tall_bad))
+    parts.append(_column(70000 if tier == "quick" else 200000))
     for n in range(N + 1, NT + 1):
         for sx in range(2, min(ST, n - 2) + 1):
             rep.nontrivial.add(("entry", n, sx))
@@ -167,5 +191,5 @@ def run(prop, args):
         small = C.shrink(w, fails, budget=100, is_valid=lambda c: C.valid({k: v for k, v in c.items() if k != "numba"}) and c.get("numba"))
         o = _stream_pair((small["n"], small["s"], small["storage"]))
         d = [d for p, _, d in o["viol"] if p == b[1]]
-        return small, (d[0] if d else "")
+        return (small, d[0]) if d else None      # None: not reproducible in isolation
     return rep.finish(shrink_fn=shrink)
